@@ -181,6 +181,11 @@ func runWire(t *testing.T, hostile []wireFrame, rot int) *wireOutcome {
 	if now := media.Get(path); now != st {
 		out.StreamGone = fmt.Sprintf("the path now resolves to %p, the publisher's stream was %p", now, st)
 	}
+	// bursts of megabytes: be patient on a loaded machine
+	wireTimeout := wireTimeout
+	if len(hostile) > 3 {
+		wireTimeout *= 8
+	}
 	// (c) continuation, judged on bytes (the server re-parses the frames)
 	lastA := wantA[len(wantA)-1]
 	mediah.WaitFor(wireTimeout, func() bool {
